@@ -318,6 +318,8 @@ def one_run_c26(check, seed, i, cfg):
         res["probes"]["cell:" + ms["cell"]] = res["probes"].get("cell:" + ms["cell"], 0) + 1
         kinds = {o[0] for o in ops}
         for o in ops:
+            if o[0] == "we":
+                res["faults"]["write_exception_class:" + o[2]] = res["faults"].get("write_exception_class:" + o[2], 0) + 1
             if o[0] in ("w", "d", "bw", "brestore", "grow"):
                 res["faults"][o[0] if o[0] != "w" else "w:" + o[2]] = res["faults"].get(o[0] if o[0] != "w" else "w:" + o[2], 0) + 1
         if any(e[0] == "r" and e[2] == "NameError" for e in tm):
@@ -376,8 +378,8 @@ def check_C26(tier):
     rep = core.Report(prop, ENGINE, tier, seed)
     rep.rule = ("seeded histories (<= 10 ops + a final read of every call site) over a compiled module's namespace: bind (unique marker each time) / delete / re-create of "
                 "declared globals via compiled code, setattr(module) and module.__dict__; shadowing and un-shadowing builtin names (len, abs, repr) through the module "
-                "namespace; growing/shrinking the module dict; in the cache_builtins=False cells also replacing/restoring names in the builtins module; reads from 13 call "
-                "sites (each with its own lookup cache). 4 build cells: default, -DCYTHON_USE_DICT_VERSIONS=1, cache_builtins=False, both. model = same source as a CPython module. "
+                "namespace; growing/shrinking the module dict; in the cache_builtins=False cells also replacing/restoring names in the builtins module; reads from %d call "
+                "sites (each with its own lookup cache), four of them reading the global as an 'except' pattern while an exception is in flight (plain global, shadowable builtin exception name, tuple of both, behind a finally)." % len(READERS) + "  4 build cells: default, -DCYTHON_USE_DICT_VERSIONS=1, cache_builtins=False, both. model = same source as a CPython module. "
                 "oracle: value or NameError per read. non-trivial = history with at least one write and one delete; distinct = (cell, ops) digest")
     rep.components = {"real": ["__Pyx_GetModuleGlobalName / __Pyx_GetBuiltinName caches in generated C", "Cython/Utility/ObjectHandling.c", "CPython dict and module objects"],
                       "stub": []}
@@ -776,7 +778,7 @@ def check_C27(tier):
     seed = core.env_seed()
     core.stage()
     rep = core.Report(prop, ENGINE, tier, seed)
-    rep.rule = ("extension types A > B > C with cpdef methods, Python subclasses P1 > P2 > P3 created on a seeded base, instances with and without __dict__; seeded histories "
+    rep.rule = ("extension types A > B > C with cpdef methods (plus an Exception-based family EA > EB and a family WA > WB > WC > WD whose overrides widen the signature with optional arguments), Python subclasses P1 > P2 > P3 created on a seeded base, instances with and without __dict__; seeded histories "
                 "(<= 10 ops + a final C-level call of every method on every instance) of: add/replace/delete an override on any Python class of the MRO (including a BASE of the "
                 "instance's type), set/delete an instance attribute with the method's name, call from Python, call from C through two different call sites, two instances through "
                 "the same call sites. oracle: the C-level call returns what Python attribute lookup on the same object returns at that moment. 2 build cells: default and "
